@@ -148,7 +148,17 @@ type CrashCase struct {
 	Gen    *StressGen     `json:"gen,omitempty"`
 	Obj    *eng.GoObjSpec `json:"obj,omitempty"`
 	Odd    string         `json:"odd,omitempty"`
+	Wear   *WearSpec      `json:"wear,omitempty"`
 	Msg    string         `json:"message,omitempty"`
+}
+
+// WearSpec: the script is run BadRuns times on an object that makes it fail
+// Depth calls deep, then once on an object that needs GoodDepth nested calls.
+type WearSpec struct {
+	BadRuns   int  `json:"bad_runs"`
+	Depth     int  `json:"depth"`
+	GoodDepth int  `json:"good_depth"`
+	UseRun    bool `json:"use_run"`
 }
 
 func (c *CrashCase) text() string {
@@ -275,6 +285,12 @@ func runCrashCase(part string, c *CrashCase) (outcome string, err error) {
 	}
 	// "the evaluator remains usable afterwards": the good object is answered
 	// the way a fresh evaluator answers it (value vs error)
+	if c.Kind != "stress" {
+		// generated programs keep variables from run to run by design, so a
+		// fresh evaluator is no reference for them (C07 compares those with
+		// the variables copied over)
+		return outcome, nil
+	}
 	good := objs[len(objs)-1]
 	used := r.Execute(good)
 	fresh := eng.NewRunner(script)
@@ -291,11 +307,97 @@ func runCrashCase(part string, c *CrashCase) (outcome string, err error) {
 	return outcome, nil
 }
 
+// runWear: "the evaluator remains usable afterwards", however many runs failed.
+func runWear(part string, c *CrashCase) (err error) {
+	journal(part, c)
+	w := c.Wear
+	ctx, cancel := context.WithTimeout(context.Background(), 60*time.Second)
+	defer cancel()
+	r := eng.NewRunner(c.Script)
+	r.E.SetContext(ctx)
+	if perr, pan := r.Prepare(false); perr != nil || pan != nil {
+		return fmt.Errorf("Prepare failed on a valid script: %v %v", perr, pan)
+	}
+	bad := map[string]interface{}{"Depth": w.Depth, "Bad": true}
+	good := map[string]interface{}{"Depth": w.GoodDepth, "Bad": false}
+	for i := 0; i < w.BadRuns; i++ {
+		var pan interface{}
+		var rerr error
+		func() {
+			defer func() { pan = recover() }()
+			if w.UseRun {
+				_, rerr = r.E.Run(bad)
+			} else {
+				_, rerr = r.E.Execute(bad)
+			}
+		}()
+		if pan != nil {
+			return fmt.Errorf("failing run %d panicked into the caller: %v", i, pan)
+		}
+		if rerr == nil {
+			return fmt.Errorf("harness: the failing object did not fail")
+		}
+	}
+	used := r.Execute(good)
+	fresh := eng.NewRunner(c.Script)
+	fresh.E.SetContext(ctx)
+	if perr, pan := fresh.Prepare(false); perr != nil || pan != nil {
+		return fmt.Errorf("Prepare failed on a valid script: %v %v", perr, pan)
+	}
+	fr := fresh.Execute(good)
+	if used.Panic != nil || fr.Panic != nil {
+		return fmt.Errorf("panic escaped on the good object: used=%v fresh=%v", used.Panic, fr.Panic)
+	}
+	if isTimeout(used.Err) || isTimeout(fr.Err) {
+		return nil
+	}
+	if (used.Err == nil) != (fr.Err == nil) || (used.Err == nil && !lang.DeepEqual(used.Val, fr.Val)) {
+		return fmt.Errorf("after %d failing runs the evaluator answers the good object with (%s, err=%v); a fresh evaluator with (%s, err=%v)", w.BadRuns, used.Val.Describe(), used.Err, fr.Val.Describe(), fr.Err)
+	}
+	return nil
+}
+
+func TestC08Wear(t *testing.T) {
+	defer silenceAs("wear")()
+	col := evid.New("C08", "wear", "")
+	defer clearJournal("wear")
+	faults := []string{"return 1 % 0;", "return 1 / 0;", "panic(\"x\");", "return nosuch(n);", "return \"a\" + 1;", "return 1 .. \"a\";", "foreach z in 5 { n = z; } return n;", "return -\"a\";", "return len(1, 2) % 0;"}
+	rapidCheck(t, col, func(rt *rapid.T) {
+		fault := faults[gen.Uniform(rt, "fault", len(faults))]
+		w := &WearSpec{BadRuns: rapid.SampledFrom([]int{1, 3, 40, 150, 400}).Draw(rt, "badruns"), Depth: rapid.SampledFrom([]int{0, 1, 5, 30, 120}).Draw(rt, "depth"),
+			GoodDepth: rapid.SampledFrom([]int{0, 10, 300, 3000, 9000}).Draw(rt, "gooddepth"), UseRun: rapid.Bool().Draw(rt, "userun")}
+		var script string
+		switch gen.Uniform(rt, "wshape", 3) {
+		case 0:
+			script = "function dive(n, bad) { if (n <= 0) { if (bad) { " + fault + " } return 0; } return 1 + dive(n - 1, bad); }\nreturn dive(Depth, Bad);"
+		case 1:
+			script = "function leaf(n, bad) { local q; q = n; if (bad) { " + fault + " } return q; }\nfunction dive(n, bad) { if (n <= 0) { return leaf(n, bad); } foreach i in [1] { return i + dive(n - 1, bad); } return 0; }\nreturn dive(Depth, Bad);"
+		default:
+			script = "function a(n, bad) { if (n <= 0) { if (bad) { " + fault + " } return 0; } return 1 + b(n - 1, bad); }\nfunction b(n, bad) { if (n <= 0) { if (bad) { " + fault + " } return 0; } return 1 + a(n - 1, bad); }\nreturn a(Depth, Bad);"
+		}
+		c := &CrashCase{Prop: "C08", Kind: "wear", Script: script, Wear: w}
+		if err := runWear("wear", c); err != nil {
+			if strings.HasPrefix(err.Error(), "harness:") {
+				t.Fatalf("%v (%s)", err, script)
+			}
+			c.Msg = err.Error()
+			violation(rt, "C08", c, "%v", err)
+		}
+		col.Class(fmt.Sprintf("failing-runs:%d", w.BadRuns))
+		col.Class("fault:" + fault)
+		cc := c
+		col.Case(fmt.Sprint(script, *w), w.BadRuns >= 3, func() interface{} { return cc })
+	})
+}
+
 func init() {
 	replayers["C08"] = func(raw []byte) error {
 		var c CrashCase
 		if err := json.Unmarshal(raw, &c); err != nil {
 			return err
+		}
+		if c.Wear != nil {
+			return runWear("replay", &c)
 		}
 		if c.Obj != nil {
 			c.Obj.Fix()
